@@ -184,7 +184,8 @@ func (r *Runner) Do(s Step) (res Res) {
 		})
 		if res.Hang == nil && res.Err == nil && h != nil {
 			acc := flag & (os.O_WRONLY | os.O_RDWR)
-			r.Slots[s.Slot] = &Slot{H: h, Path: s.Path, Flag: flag, Mut: acc != 0}
+			// truncation is committed at Close/Sync like every other write
+			r.Slots[s.Slot] = &Slot{H: h, Path: s.Path, Flag: flag, Mut: acc != 0, Dirty: acc != 0 && flag&os.O_TRUNC != 0}
 		}
 	case "write", "writestring", "writeat":
 		sl := slot()
